@@ -144,3 +144,31 @@ class Renaming(Harness):
 
 
 HARNESSES = [Renaming()]
+
+# ---- deductive contracts: the two leaf renamings (all signatures, all injective maps incl. overlapping ones) ---------------
+_RHO = "old_to_new_param_names.get({k}, {k})"
+_OLDK = "old(self.signature.keys())"
+
+
+def _cs_contract(cls):
+    return dict(
+        prop="C18", params={"self": ("ref", cls), "old_to_new_param_names": ("ref", "dict_str_str")}, returns="none", allocates=False,
+        dict_values={"dict_str_ref": "PDDLType"},
+        requires=[
+            "self.signature != old_to_new_param_names",
+            # the map is injective on the parameters of this signature (names it does not mention stay as they are)
+            "forall_int(lambda i: forall_int(lambda j: implies(i != j, "
+            + _RHO.format(k="self.signature.keys()[i]") + " != " + _RHO.format(k="self.signature.keys()[j]") + "), 0, len(self.signature.keys())), 0, len(self.signature.keys()))"],
+        ensures=[
+            # same number of parameters, same order, new names
+            f"len(self.signature.keys()) == len({_OLDK})",
+            "forall_int(lambda i: self.signature.keys()[i] == " + _RHO.format(k=f"{_OLDK}[i]") + f", 0, len({_OLDK}))",
+            # types stay attached to their positions
+            f"forall_int(lambda i: self.signature[self.signature.keys()[i]] == old(self.signature[self.signature.keys()[i]]), 0, len({_OLDK}))",
+            # the signature object itself is kept (renaming is in place)
+            "self.signature == old(self.signature)"],
+        raises={}, modifies=["dict_str_ref.keys[self.signature]", "dict_str_ref.map[self.signature]"])
+
+
+CONTRACTS["models.pddl_predicate:Predicate.change_signature"] = _cs_contract("Predicate")
+CONTRACTS["models.pddl_function:PDDLFunction.change_signature"] = _cs_contract("PDDLFunction")
